@@ -184,7 +184,9 @@ def build_sup(sup_spec, src_built, initialize=True):
         cn = dsg.add_selection_choice(c['key'], b.node[c['origin']], [b.node[o] for o in c['options']])
         b.sel[c['key']] = cn
         b._name[cn] = 'S:' + c['key']
-    for c in sup_spec['sel']:
+    by_key = {c['key']: c for c in sup_spec['sel']}
+    order = sup_spec.get('mapping_order') or [c['key'] for c in sup_spec['sel']]
+    for c in [by_key[k] for k in order]:   # the order of add_mapping calls is part of the input
         for m in c.get('mappings', [c['mapping']] if c.get('mapping') else []):
             mp = {}
             for k, v in m['map']:
